@@ -210,7 +210,7 @@ def required_labels(tier):
 
 
 def phases(tier, seed):
-    n = 25600 if tier == 'quick' else 64000
+    n = 25600 if tier == 'quick' else 600000
     return [
         Enum('all-1-and-2-byte-contents', lambda: small_scope(tier), exhaustive=True,
              note='all 256 + 65536 bytes contents of length 1 and 2, automatic mode'),
